@@ -1,0 +1,27 @@
+//go:build verif
+
+package gene
+
+// Contracts for the deductive verifier in /verif (govc). This file is only
+// compiled with -tags verif; it adds no behaviour to the package.
+
+//@ spec sortedNonOverlap(s Exons) bool = forall i int :: 0 < i && i < len(s) ==> s[i].Offset >= s[i-1].Offset + s[i-1].Length
+//@ spec sameLoc(s Exons) bool = forall i int :: 0 < i && i < len(s) ==> s[i].Transcript == s[i-1].Transcript
+
+//@ func (Exons).Less
+//@   property C20
+//@   requires 0 <= i && i < len(s) && 0 <= j && j < len(s)
+//@   ensures  result == (s[i].Offset < s[j].Offset)
+//@   pure
+
+//@ func (Exons).Add
+//@   property C20
+//@   ensures [sorted]  result1 == nil ==> sortedNonOverlap(result0)
+//@   ensures [sameloc] result1 == nil ==> sameLoc(result0)
+//@   ensures [count]   result1 == nil ==> len(result0) == len(s) + len(exons)
+//@   ensures [atomic]  result1 != nil ==> len(result0) == len(s) && arr(result0) == arr(s) && off(result0) == off(s)
+//@   ensures [atomic-elems] result1 != nil ==> forall i int :: 0 <= i && i < len(s) ==> s[i] == old(s[i])
+//@   ensures [atomic-input] result1 != nil ==> forall i int :: 0 <= i && i < len(exons) ==> exons[i] == old(exons[i])
+//@   loop 1 invariant 0 <= idx && idx <= len(newSlice)
+//@   loop 1 invariant forall k int :: 0 < k && k < idx ==> newSlice[k].Offset >= newSlice[k-1].Offset + newSlice[k-1].Length
+//@   loop 1 invariant forall k int :: 0 < k && k < idx ==> newSlice[k].Transcript == newSlice[k-1].Transcript
